@@ -284,4 +284,238 @@ theorem ideal_gas_law (f : TransFns Rat) (n tk vol : Rat) (hv : vol ≠ 0) :
 example : (letI := ratOps idFns; prP (24 : Rat) 0 0 3) = 8 := by decide +kernel
 example : (letI := ratOps idFns; idealP (2 : Rat) 300 10 * 10) = 2 * (820597 / 10000000) * 300 := by decide +kernel
 
+/-! ## 7. the whole of `calc_PR`: what every call returns -/
+
+/-- the assembled result: every component has `pr_p = x·P`, ln φ inside the clamp; fractions and pressures add up -/
+theorem outOf_spec (f : TransFns Rat) (rt : Rat) (cs : List (Comp Rat)) (m : Mix Rat) (p vm : Rat)
+    (hlen : m.aa2.length = cs.length) :
+    letI := ratOps f
+    (∀ c ∈ (outOf rt cs m p vm).comps, c.p = c.x * p ∧ (-46 / 10 : Rat) ≤ c.lnphi ∧ c.lnphi ≤ 444 / 100) ∧
+    (outOf rt cs m p vm).comps.map (·.x) = cs.map (·.x) ∧
+    ((outOf rt cs m p vm).comps.map (·.p)).sum = (cs.map (·.x)).sum * p := by
+  letI := ratOps f
+  have hall : ∀ c ∈ (outOf rt cs m p vm).comps,
+      c.p = c.x * p ∧ (-46 / 10 : Rat) ≤ c.lnphi ∧ c.lnphi ≤ 444 / 100 := by
+    intro c hc
+    simp only [outOf, List.mem_map] at hc
+    obtain ⟨⟨ci, aa2⟩, _, rfl⟩ := hc
+    have := compOut_spec f rt m.bsum m.asum p vm ci aa2
+    exact ⟨this.2.1.trans (by rw [this.1]), this.2.2.1, this.2.2.2⟩
+  have hx : (outOf rt cs m p vm).comps.map (·.x) = cs.map (·.x) := by
+    simp only [outOf, List.map_map]
+    have e : ((fun c : CompOut Rat => c.x) ∘ fun (x : Comp Rat × Rat) => compOut rt m.bsum m.asum p vm x.1 x.2)
+        = (fun c : Comp Rat => c.x) ∘ Prod.fst := by
+      funext x
+      exact (compOut_spec f rt m.bsum m.asum p vm x.1 x.2).1
+    rw [e, ← List.map_map, List.map_fst_zip (by omega)]
+  refine ⟨hall, hx, ?_⟩
+  have : (outOf rt cs m p vm).comps.map (·.p) = (outOf rt cs m p vm).comps.map (fun c => c.x * p) :=
+    List.map_congr_left (fun c hc => (hall c hc).1)
+  rw [this, sum_map_mul_right, hx]
+
+/-- what `calc_PR` returns (one gas record per mole number): partial pressures are the mole-fraction shares of the
+pressure used, they sum to it, the fractions sum to one, every ln φ lies in the clamp -/
+theorem calcPR_spec (f : TransFns Rat) (tab : List ((String × String) × Rat)) (search : Bool)
+    (gs : List (Gas Rat)) (moles : List Rat) (p tk vm : Rat) (hlen : gs.length = moles.length) :
+    letI := ratOps f
+    ∀ o, calcPR tab search gs moles p tk vm = some o →
+      (∀ c ∈ o.comps, c.p = c.x * o.p ∧ (-46 / 10 : Rat) ≤ c.lnphi ∧ c.lnphi ≤ 444 / 100) ∧
+      (o.comps.map (·.x)).sum = 1 ∧ (o.comps.map (·.p)).sum = o.p := by
+  letI := ratOps f
+  intro o h
+  unfold calcPR at h
+  cases hf : fractions moles with
+  | none => rw [hf] at h; simp at h
+  | some xs =>
+    rw [hf] at h
+    simp only [Option.some.injEq] at h
+    obtain ⟨hxs, hxl⟩ := fractions_sum f moles xs hf
+    subst h
+    have hc := comps_x f tk gs xs (by omega)
+    obtain ⟨h1, h2, h3⟩ := outOf_spec f (gasR * tk) (comps tk gs xs) (mix (binaryFactor tab) (comps tk gs xs)) _ _
+      (mix_aa2_length f _ _)
+    refine ⟨h1, ?_, ?_⟩
+    · rw [h2, hc, hxs]
+    · rw [h3, hc, hxs]; simp [outOf]
+
+/-- pressure-given mode: the returned molar volume is the solver's root for the (floored) pressure -/
+theorem calcPR_pressure_mode (f : TransFns Rat) (tab : List ((String × String) × Rat)) (search : Bool)
+    (gs : List (Gas Rat)) (moles : List Rat) (p tk : Rat) :
+    letI := ratOps f
+    ∀ o, calcPR tab search gs moles p tk 0 = some o →
+      o.p = (if p < 1 / 10000000000 then 1 / 10000000000 else p) ∧ o.vm = vmOfP (gasR * tk) o.bsum o.asum o.p := by
+  letI := ratOps f
+  intro o h
+  unfold calcPR at h
+  cases hf : fractions moles with
+  | none => rw [hf] at h; simp at h
+  | some xs =>
+    rw [hf] at h
+    simp only [Option.some.injEq] at h
+    subst h
+    have hz : isZero (0 : Rat) = true := (isZero_iff f 0).mpr rfl
+    simp only [hz, if_true]
+    exact ⟨rfl, rfl⟩
+
+/-- volume-given mode without the three-root search (`iterations ≤ 0`): the pressure is the Peng–Robinson pressure at
+the given molar volume, or 1 when that is not positive -/
+theorem calcPR_volume_mode (f : TransFns Rat) (tab : List ((String × String) × Rat))
+    (gs : List (Gas Rat)) (moles : List Rat) (p tk vm : Rat) (hvm : vm ≠ 0) :
+    letI := ratOps f
+    ∀ o, calcPR tab false gs moles p tk vm = some o →
+      o.vm = vm ∧ ((0 < prP (gasR * tk) o.bsum o.asum vm ∧ o.p = prP (gasR * tk) o.bsum o.asum vm) ∨
+                   (prP (gasR * tk) o.bsum o.asum vm ≤ 0 ∧ o.p = 1)) := by
+  letI := ratOps f
+  intro o h
+  unfold calcPR at h
+  cases hf : fractions moles with
+  | none => rw [hf] at h; simp at h
+  | some xs =>
+    rw [hf] at h
+    simp only [Option.some.injEq] at h
+    subst h
+    have hz : ¬ isZero vm = true := fun hh => hvm ((isZero_iff f vm).mp hh)
+    simp only [hz]
+    refine ⟨rfl, ?_⟩
+    show _ ∨ _
+    simp only [outOf, pOfVm, Bool.false_and, Bool.false_eq_true, if_false]
+    by_cases hp : prP (gasR * tk) (mix (binaryFactor tab) (comps tk gs xs)).bsum
+        (mix (binaryFactor tab) (comps tk gs xs)).asum vm ≤ (lit 0 : Rat)
+    · right; rw [if_pos hp]; exact ⟨hp, rfl⟩
+    · left; rw [if_neg hp]; exact ⟨not_le.mp hp, rfl⟩
+
+/-! ## 8. binary interaction factor -/
+
+/-- the hard-coded table and the map lookup are symmetric in the two names when the map is -/
+theorem binaryFactor_symm (f : TransFns Rat) (tab : List ((String × String) × Rat)) (n1 n2 : String)
+    (hsym : ∀ a b, lookupK tab a b = lookupK tab b a) :
+    letI := ratOps f
+    binaryFactor tab n1 n2 = binaryFactor tab n2 n1 := by
+  letI := ratOps f
+  unfold binaryFactor
+  rw [hsym n1 n2]
+  cases lookupK tab n2 n1 with
+  | some k => rfl
+  | none =>
+    by_cases h1 : n1 = "H2O(g)" <;> by_cases h2 : n2 = "H2O(g)"
+    · subst h1; subst h2; rfl
+    · subst h1; simp [h2]
+    · subst h2; simp [h1]
+    · simp [h1, h2]
+
+theorem doubleLoop_spec (f : TransFns Rat) (rt b a : Rat) (fuel : Nat) (v0 : Rat) :
+    letI := ratOps f
+    ∃ k : Nat, k ≤ fuel ∧ (doubleLoop rt b a fuel v0).2 = v0 * 2 ^ k ∧
+      (doubleLoop rt b a fuel v0).1 = prP rt b a (v0 * 2 ^ k) ∧
+      (∀ j, j < k → prP rt b a (v0 * 2 ^ j) ≤ 0) ∧
+      (k < fuel → 0 < prP rt b a (v0 * 2 ^ k)) := by
+  letI := ratOps f
+  induction fuel generalizing v0 with
+  | zero => exact ⟨0, Nat.le_refl _, by simp [doubleLoop], by simp [doubleLoop], by intro j hj; omega, by intro h; omega⟩
+  | succ n ih =>
+    by_cases hp : prP rt b a v0 ≤ (lit 0 : Rat)
+    · have hp0 : prP rt b a v0 ≤ 0 := hp
+      obtain ⟨k, hk, h1, h2, h3, h4⟩ := ih (v0 * 2)
+      refine ⟨k + 1, by omega, ?_, ?_, ?_, ?_⟩
+      · simp only [doubleLoop, if_pos hp]
+        have : (lit 2 : Rat) = 2 := rfl
+        rw [this, h1]; ring
+      · simp only [doubleLoop, if_pos hp]
+        have : (lit 2 : Rat) = 2 := rfl
+        rw [this, h2]; congr 1; ring
+      · intro j hj
+        cases j with
+        | zero => simpa using hp0
+        | succ j => have := h3 j (by omega); rw [show v0 * 2 ^ (j + 1) = v0 * 2 * 2 ^ j by ring]; exact this
+      · intro hlt
+        have := h4 (by omega)
+        rw [show v0 * 2 ^ (k + 1) = v0 * 2 * 2 ^ k by ring]; exact this
+    · refine ⟨0, by omega, ?_, ?_, by intro j hj; omega, ?_⟩
+      · simp only [doubleLoop, if_neg hp]; simp
+      · simp only [doubleLoop, if_neg hp]; simp
+      · intro _
+        have : ¬ prP rt b a v0 ≤ 0 := hp
+        simpa using not_le.mp this
+
+/-- consequence for the converged numerical fixed-volume state (the known departure
+`fixedV-numerical-negative-PR-pressure`): the mole numbers are `p_soln/P · V / v_m` with the *stored* molar volume;
+if that is `2^k` times the true molar volume `V/n`, the equilibrium partial pressures sum to `2^k · P`, not to `P` -/
+theorem fixedV_doubled_vm (f : TransFns Rat) (ps : List Rat) (totalP vol n : Rat) (k : Nat)
+    (hP : totalP ≠ 0) (hv : vol ≠ 0) (hn : n ≠ 0) :
+    letI := ratOps f
+    total (fixedVPRMoles ps totalP vol (vol / n * 2 ^ k)) = n → total ps = 2 ^ k * totalP := by
+  letI := ratOps f
+  intro h
+  have ht : ∀ l : List Rat, total l = l.sum := by
+    intro l
+    show l.foldl (fun acc x => acc + x) 0 = l.sum
+    rw [foldl_sum]; ring
+  rw [ht] at h ⊢
+  have hm : (fixedVPRMoles ps totalP vol (vol / n * 2 ^ k)).sum = ps.sum / totalP * vol / (vol / n * 2 ^ k) := by
+    show (ps.map fun p => p / totalP * vol / (vol / n * 2 ^ k)).sum = _
+    have : (fun p : Rat => p / totalP * vol / (vol / n * 2 ^ k)) = fun p => p * (1 / totalP * vol / (vol / n * 2 ^ k)) := by
+      funext p; ring
+    rw [this, sum_map_mul_right (fun p => p) ps]; simp; ring
+  rw [hm] at h
+  have h2 : (2 : Rat) ^ k ≠ 0 := pow_ne_zero _ (by norm_num)
+  field_simp at h
+  linarith
+
+/-- with the true molar volume (`k = 0`) the same bookkeeping gives Σ p = P: the state is consistent -/
+theorem fixedV_consistent (f : TransFns Rat) (ps : List Rat) (totalP vol n : Rat)
+    (hP : totalP ≠ 0) (hv : vol ≠ 0) (hn : n ≠ 0) :
+    letI := ratOps f
+    total (fixedVPRMoles ps totalP vol (vol / n)) = n → total ps = totalP := by
+  intro h
+  have := fixedV_doubled_vm f ps totalP vol n 0 hP hv hn (by simpa using h)
+  simpa using this
+
+example : (letI := ratOps idFns; binaryFactor ([] : List ((String × String) × Rat)) "H2O(g)" "CO2(g)") = 81 / 100 := by
+  decide +kernel
+example : (letI := ratOps idFns; binaryFactor ([] : List ((String × String) × Rat)) "N2(g)" "H2O(g)") = 51 / 100 := by
+  decide +kernel
+example : (letI := ratOps idFns; binaryFactor [(("H2O(g)", "CO2(g)"), (19 / 100 : Rat))] "H2O(g)" "CO2(g)") = 81 / 100 := by
+  decide +kernel
+example : (letI := ratOps idFns; binaryFactor ([] : List ((String × String) × Rat)) "CO2(g)" "N2(g)") = 1 := by
+  decide +kernel
+/-- the doubling loop on RT = 1, b = 1/10, a = 2: the pressure is negative at V = 1/5, 2/5, 4/5, 8/5 and positive at 16/5 -/
+example : (letI := ratOps idFns; (doubleLoop (1 : Rat) (1 / 10) 2 5 (1 / 5)).2) = 16 / 5 := by
+  simp only [doubleLoop, prP, NumOps.lit, NumOps.ofRat, id]; norm_num
+example : (letI := ratOps idFns; fractions [(1 : Rat), 0, 3]) = some [1 / 4, 0, 3 / 4] := by decide +kernel
+
+/-! ## 9. the same model over ℝ with Mathlib's functions: the solver's hypotheses are discharged
+
+`realOps` (Lemmas/Gas.lean) instantiates `sqrt := Real.sqrt`, `cbrt x := x ^ (1/3)` (the code's `pow(x, one_3)`),
+`cos := Real.cos`, `acos := Real.arccos`.  The branch guards make every argument of `cbrt` non-negative and put the
+argument of `arccos` in [-1, 1], so the pointwise laws assumed in section 2 are theorems here. -/
+
+/-- real numbers, Mathlib's `√`, `x^(1/3)`, `cos`, `arccos`: for every temperature term, mixture parameters and
+pressure the molar volume `calc_PR` returns is an exact root of the cubic it solves — no hypothesis on the functions -/
+theorem cardano_real (rt b a p : ℝ) :
+    letI := realOps
+    (cubicOf rt b a p).eval (vmOfP rt b a p) = 0 :=
+  cubic_root_real _
+
+/-- hence, over the reals, the returned volume satisfies the Peng–Robinson equation itself wherever its denominators
+do not vanish -/
+theorem pr_holds_at_returned_volume_real (rt b a p : ℝ) :
+    letI := realOps
+    p ≠ 0 → vmOfP rt b a p - b ≠ 0 →
+    vmOfP rt b a p * (vmOfP rt b a p + 2 * b) - b * b ≠ 0 →
+    p = prP rt b a (vmOfP rt b a p) := by
+  letI := realOps
+  intro hp hv hd
+  have hroot := cardano_real rt b a p
+  generalize vmOfP rt b a p = v at *
+  have l2 : (lit 2 : ℝ) = 2 := by rw [real_lit]; norm_num
+  have l3 : (lit (-3) : ℝ) = -3 := by rw [real_lit]; norm_num
+  simp only [prP, cubicOf, Cubic.eval, l2, l3] at *
+  have key : p * (v - b) * (v * (v + 2 * b) - b * b) = rt * (v * (v + 2 * b) - b * b) - a * (v - b) := by
+    have h := congrArg (fun x => p * x) hroot
+    simp only [mul_zero] at h
+    field_simp at h
+    linear_combination h
+  rw [div_sub_div _ _ hv hd, eq_div_iff (mul_ne_zero hv hd)]
+  linear_combination key
+
 end PhreeqcVerif.C19
